@@ -57,7 +57,7 @@ PROPS = {
              "adjacent nodes satisfies T_p <= T_q + d*min(slowness of the cells adjoining the edge), hence (R) no node is later than any grid path from any other node; the 4-point operator is never earlier than the "
              "diagonal neighbour and the 8-point candidate is discarded when earlier than the opposite corner (no-op on cubic cells). The global lower bound is "
              "examined on the implementation.", RULE_SOLVE, props="props/C04.v"),
-    "C05": P(GS + ["Vinterp2d", "Vinterp3d", "ApiGen"], SOLVER2 + SOLVER3 + VINTERP, "proof",
+    "C05": P(GS + ["Vinterp2d", "Vinterp3d", "Interp2d", "Interp3d", "FteikCommon", "Ray2d", "Ray3d", "ApiGen"], SOLVER2 + SOLVER3 + VINTERP, "proof",
              "Theorems over R on the generated kernels: slowness- and length-homogeneity of t_ana, t_anad, delta, of one node update, of the "
              "2D source initialisation and of the WHOLE solvers fteik2d / fteik3d (placeholder caveat on the reference run); bit-for-bit power-of-two and 1e-9 general scaling of the whole pipeline are examined on the implementation.",
              RULE_SOLVE + "; scale factors 2^k (k=-9..9) and 10^u (u in [-3,3]), slowness or length", props="props/C05.v", api_corr="api"),
